@@ -42,7 +42,7 @@ META = {
     'level_note': 'exhaustive: true for the stated box (GraphParser route); '
                   'reference semantics vlib/models/graphsem.py trusted.',
     'design_ref': 'DESIGN.md §5 C15',
-    'budget': {'quick': 90, 'thorough': 600},
+    'budget': {'quick': 120, 'thorough': 900},
     'exhaustive': True,
 }
 RULE = ('case = one box element (qualifier, size, context, offset, marking, '
